@@ -298,3 +298,342 @@ Proof. reflexivity. Qed.
 (* newEsContext: a fresh context starts the 4-bit counter at wrapAt + 1 *)
 Lemma new_es_context_is_generated es : new_es_context es = ctx_mod (newEsContext es).
 Proof. reflexivity. Qed.
+
+(* ---- NewMuxer ---- *)
+
+(* the program map as an association list PID -> program number; NewMuxer puts one entry in it *)
+Definition gpm := list (Z * Z).
+Definition gpm_set (pm : gpm) (pid n : Z) : gpm := es_put pid n pm.
+Definition mux_pm : gpm := [(C_pmtStartPID, C_programNumberStart)].
+
+(* for _, opt := range opts { opt(m) }: the period the last option sets, the default when there is none *)
+Definition opts_period (opts : list MuxerOpt) (d : Z) : Z := fold_left (fun p o => MuxerOpt_apply o p) opts d.
+
+Lemma new_loop_is_model (W : Type) l : forall (buf : list Z) (escs : list (Z * esctx)) np ps pb patcc patv (pm : gpm) pmu pmt mb pmtcc
+    pmtu pmtv (rm : list (Z * wrappingCounter)) cnt period (mw : W) opts (w : W),
+  NewMuxer_loop1 [] [] [] gpm_set l buf escs np ps pb patcc patv pm pmu pmt mb pmtcc pmtu pmtv rm cnt period mw opts w =
+  inr (opts_period l period).
+Proof.
+  induction l as [|o r IH]; intros; [reflexivity|].
+  cbn [NewMuxer_loop1 opts_period fold_left]. apply IH.
+Qed.
+
+(* every field of the fresh Muxer, read off the model's initial state *)
+Definition new_view {W} (w : W) (s : mstate) :=
+  (w, C_MpegTsPacketSize, ms_period s, mux_pm, ms_pm_updated s, pmt_of s, ms_pmt_updated s, ms_next_pid s,
+   ms_pat_version s, ms_pmt_version s, ms_pat_cc s, ms_pmt_cc s, @nil Z, @nil Z, @nil Z, ms_es s, ms_retransmit s,
+   ms_removed s).
+
+Lemma new_muxer_is_generated (W : Type) (w : W) opts :
+  NewMuxer [] [] [] gpm_set w opts = new_view w (new_muxer (opts_period opts 40)).
+Proof. unfold NewMuxer. rewrite new_loop_is_model. reflexivity. Qed.
+
+(* NewMuxer(ctx, w, MuxerOptTablesRetransmitPeriod(period)) and NewMuxer(ctx, w) *)
+Lemma new_muxer_period_is_generated (W : Type) (w : W) period :
+  NewMuxer [] [] [] gpm_set w [MuxerOptTablesRetransmitPeriod period] = new_view w (new_muxer period).
+Proof. apply new_muxer_is_generated. Qed.
+
+Lemma new_muxer_default_is_generated (W : Type) (w : W) :
+  NewMuxer [] [] [] gpm_set w [] = new_view w (new_muxer default_period).
+Proof. apply new_muxer_is_generated. Qed.
+
+(* the counter that makes the first WriteData emit the tables is read AFTER the options ran, whatever they are *)
+Lemma new_muxer_counter_after_options period opts :
+  ms_retransmit (new_muxer (opts_period opts period)) = opts_period opts period /\
+  ms_period (new_muxer (opts_period opts period)) = opts_period opts period.
+Proof. split; reflexivity. Qed.
+
+(* ---- the abstract byte producers, the program map, the io.Writer ---- *)
+
+(* programMap.toPATDataUnlocked for a map with its entries in list order (one entry in a Muxer) *)
+Definition to_pat (pm : gpm) : PATData :=
+  {| PATData_Programs := map (fun e => {| PATProgram_ProgramMapID := fst e; PATProgram_ProgramNumber := snd e |}) pm;
+     PATData_TransportStreamID := C_PSITableIDPAT |}.
+
+Lemma to_pat_mux_pm : to_pat mux_pm = pat_data.
+Proof. reflexivity. Qed.
+
+(* what an abstract callee hands back: nil, its error code, or (odd codes) a panic *)
+Definition ext_code {A} (r : res A) : merror :=
+  match r with Ok _ => ENil | Err c => EExt (2 * c) | Panic => EExt 1 end.
+
+Definition g_wpsi (buf : list Z) (d : PSIData) : list Z * Z * merror :=
+  match write_psi_data d with Ok bs => (buf ++ bs, blen bs, ENil) | r => (buf, 0, ext_code r) end.
+Definition g_wpkt (buf : list Z) (p : Packet) (target : Z) : list Z * Z * merror :=
+  match write_packet p target with Ok bs => (buf ++ bs, blen bs, ENil) | r => (buf, 0, ext_code r) end.
+
+(* the io.Writer: the Write calls so far; no Write fails here *)
+Definition gw := list (list Z).
+Definition g_write (w : gw) (bs : list Z) : gw * Z * merror := (w ++ [bs], blen bs, ENil).
+
+(* errors of the table functions: as err_res, with the callee's panic decoded *)
+Definition terr_res (e : merror) : res unit :=
+  match e with
+  | EExt k => if Z.odd k then Panic else Err (k / 2)
+  | e => err_res e
+  end.
+
+Definition table_res {A} (e : merror) (v : A) : res A :=
+  match terr_res e with Ok _ => Ok v | Err c => Err c | Panic => Panic end.
+
+Lemma terr_res_err c : terr_res (EExt (2 * c)) = Err c.
+Proof.
+  unfold terr_res. rewrite Z.odd_mul. cbn [Z.odd andb].
+  replace (2 * c / 2) with c by (rewrite Z.mul_comm, Z.div_mul; lia). reflexivity.
+Qed.
+
+Lemma terr_nil e : merror_is_nil e = match terr_res e with Ok _ => true | _ => false end.
+Proof. destruct e; try reflexivity. cbn [terr_res merror_is_nil]. destruct (Z.odd code); reflexivity. Qed.
+
+Lemma set_tables_same s :
+  set_tables s (ms_pat_version s) (ms_pmt_version s) (ms_pat_cc s) (ms_pmt_cc s) (ms_pm_updated s) (ms_pmt_updated s) = s.
+Proof. destruct s; reflexivity. Qed.
+
+(* ---- generatePAT ---- *)
+
+Lemma generate_pat_of_generated s pb buf :
+  generate_pat s =
+  let '(pmu, patv, patcc, pbytes, buf', e) :=
+    Muxer_generatePAT to_pat g_wpsi g_wpkt C_MpegTsPacketSize mux_pm (ms_pm_updated s) (ms_pat_version s) (ms_pat_cc s) pb buf in
+  (set_tables s patv (ms_pmt_version s) patcc (ms_pmt_cc s) pmu (ms_pmt_updated s),
+   table_res e (table_packet C_PIDPAT (wrappingCounter_inc (ms_pat_cc s)) buf', pbytes)).
+Proof.
+  unfold Muxer_generatePAT, generate_pat, next_version.
+  destruct (ms_pm_updated s) eqn:Epm;
+    match goal with |- context [write_psi_data ?d] =>
+      match goal with |- context [g_wpsi ?b ?d'] => change d' with d end end;
+    unfold g_wpsi; destruct (write_psi_data _) as [payload|c|]; cbn [ext_code merror_is_nil negb];
+    try (unfold table_res; rewrite ?terr_res_err; reflexivity);
+    cbn [app];
+    match goal with |- context [write_packet ?p ?t] =>
+      match goal with |- context [g_wpkt ?b ?p' ?t'] => change p' with p end end;
+    unfold g_wpkt; destruct (write_packet _ _) as [bs|c|]; cbn [ext_code merror_is_nil negb];
+    unfold table_res; rewrite ?terr_res_err; reflexivity.
+Qed.
+
+(* ---- generatePMT ---- *)
+
+Section pmt_loops.
+Variables (buf : list Z) (ps : Z) (pmt : PMTData) (mb : list Z) (cc : wrappingCounter) (upd : bool) (ver : wrappingCounter).
+
+(* for _, es := range m.pmt.ElementaryStreams { if es.ElementaryPID == m.pmt.PCRPID { hasPCRPID = true; break } } *)
+Lemma pmt_loop1_is_model l : forall h,
+  Muxer_generatePMT_loop1 calc_descriptor_length calc_pmt_section_length g_wpsi g_wpkt l h buf ps pmt mb cc upd ver =
+  inr (if stream_pid_in (PMTData_PCRPID pmt) l then true else h).
+Proof.
+  induction l as [|e r IH]; intros; [reflexivity|].
+  cbn [Muxer_generatePMT_loop1 stream_pid_in existsb].
+  destruct (PMTElementaryStream_ElementaryPID e =? PMTData_PCRPID pmt); [reflexivity|]. apply IH.
+Qed.
+
+Lemma pmt_loop2_is_model l : forall h size,
+  Muxer_generatePMT_loop2 calc_descriptor_length calc_pmt_section_length g_wpsi g_wpkt l h buf ps pmt mb cc upd ver size =
+  inr (fold_left (fun k d => k + (2 + calc_descriptor_length d)) l size).
+Proof. induction l as [|d r IH]; intros; [reflexivity|]. cbn [Muxer_generatePMT_loop2 fold_left]. apply IH. Qed.
+
+Lemma pmt_loop4_is_model l : forall es h size,
+  Muxer_generatePMT_loop4 calc_descriptor_length calc_pmt_section_length g_wpsi g_wpkt l es h buf ps pmt mb cc upd ver size =
+  inr (fold_left (fun k d => k + (2 + calc_descriptor_length d)) l size).
+Proof. induction l as [|d r IH]; intros; [reflexivity|]. cbn [Muxer_generatePMT_loop4 fold_left]. apply IH. Qed.
+
+Lemma pmt_loop3_is_model l : forall h size,
+  Muxer_generatePMT_loop3 calc_descriptor_length calc_pmt_section_length g_wpsi g_wpkt l h buf ps pmt mb cc upd ver size =
+  inr (fold_left (fun n es => fold_left (fun k d => k + (2 + calc_descriptor_length d))
+                                        (PMTElementaryStream_ElementaryStreamDescriptors es) (n + 5)) l size).
+Proof.
+  induction l as [|e r IH]; intros; [reflexivity|].
+  cbn [Muxer_generatePMT_loop3 fold_left]. rewrite pmt_loop4_is_model. apply IH.
+Qed.
+End pmt_loops.
+
+Lemma generate_pmt_of_generated s mb buf :
+  generate_pmt s =
+  let '(pmtu, pmtv, pmtcc, mbytes, buf', e) :=
+    Muxer_generatePMT calc_descriptor_length calc_pmt_section_length g_wpsi g_wpkt C_MpegTsPacketSize
+      (pmt_of s) (ms_pmt_updated s) (ms_pmt_version s) (ms_pmt_cc s) mb buf in
+  (set_tables s (ms_pat_version s) pmtv (ms_pat_cc s) pmtcc (ms_pm_updated s) pmtu,
+   table_res e (table_packet C_pmtStartPID (wrappingCounter_inc (ms_pmt_cc s)) buf', mbytes)).
+Proof.
+  unfold Muxer_generatePMT, generate_pmt.
+  rewrite pmt_loop1_is_model. unfold pmt_of at 1 2. cbn [pmt_data_of PMTData_ElementaryStreams PMTData_PCRPID].
+  destruct (stream_pid_in (ms_pcr_pid s) (ms_streams s)); cbn [negb];
+    [|rewrite set_tables_same; reflexivity].
+  rewrite pmt_loop2_is_model, pmt_loop3_is_model.
+  unfold pmt_of at 1 2. cbn [pmt_data_of PMTData_ElementaryStreams PMTData_ProgramDescriptors fold_left].
+  fold (pmt_size (ms_streams s)).
+  destruct (pmt_size (ms_streams s) >? 1021 - 9); [rewrite set_tables_same; reflexivity|].
+  unfold next_version.
+  destruct (ms_pmt_updated s) eqn:Epm;
+    match goal with |- context [write_psi_data ?d] =>
+      match goal with |- context [g_wpsi ?b ?d'] => change d' with d end end;
+    unfold g_wpsi; destruct (write_psi_data _) as [payload|c|]; cbn [ext_code merror_is_nil negb];
+    try (unfold table_res; rewrite ?terr_res_err; reflexivity);
+    cbn [app];
+    match goal with |- context [write_packet ?p ?t] =>
+      match goal with |- context [g_wpkt ?b ?p' ?t'] => change p' with p end end;
+    unfold g_wpkt; destruct (write_packet _ _) as [bs|c|]; cbn [ext_code merror_is_nil negb];
+    unfold table_res; rewrite ?terr_res_err; reflexivity.
+Qed.
+
+(* ---- WriteTables ---- *)
+
+Definition groups_of (w : gw) : list (list (list Z)) := map (fun b => [b]) w.
+
+Ltac gen_tuple E :=
+  match goal with |- context [let '(_, _) := ?g in _] =>
+    let x := fresh "g" in remember g as x eqn:E; repeat (let a := fresh "v" in destruct x as [x a])
+  end.
+
+(* When no table generation panics (the model does not restore the six fields in that case: restore is not
+   deferred), the state and the output of WriteTables are those of the generated function. *)
+Lemma write_tables_of_generated s pb mb buf : pa_res (snd (write_tables s)) <> Panic ->
+  let '(w, pmu, pmtu, patv, pmtv, patcc, pmtcc, _, _, _, n, e) :=
+    Muxer_WriteTables calc_descriptor_length calc_pmt_section_length g_write to_pat g_wpsi g_wpkt
+      (@nil (list Z)) C_MpegTsPacketSize mux_pm (ms_pm_updated s) (pmt_of s) (ms_pmt_updated s)
+      (ms_pat_version s) (ms_pmt_version s) (ms_pat_cc s) (ms_pmt_cc s) pb mb buf in
+  fst (write_tables s) = set_tables s patv pmtv patcc pmtcc pmu pmtu /\
+  mout_of_part (snd (write_tables s)) = mk_mout (terr_res e) n (groups_of w).
+Proof.
+  unfold write_tables, Muxer_WriteTables.
+  rewrite (generate_pat_of_generated s pb buf).
+  destruct (Muxer_generatePAT _ _ _ _ _ _ _ _ _ _) as [[[[[pmu patv] patcc] pbytes] buf1] e1].
+  unfold table_res. rewrite terr_nil.
+  destruct (terr_res e1) as [u|c|] eqn:E1; cbn [negb].
+  2:{ intros _. cbn [fst snd mout_of_part pa_res pa_n pa_groups]. rewrite E1. split; reflexivity. }
+  2:{ cbn [snd pa_res]. congruence. }
+  rewrite (generate_pmt_of_generated _ mb buf1).
+  cbn [pmt_of ms_streams ms_pcr_pid ms_pmt_updated ms_pmt_version ms_pmt_cc ms_pat_version ms_pat_cc ms_pm_updated set_tables].
+  fold (pmt_of s).
+  destruct (Muxer_generatePMT _ _ _ _ _ _ _ _ _ _ _) as [[[[[pmtu pmtv] pmtcc] mbytes] buf2] e2].
+  unfold table_res. rewrite terr_nil.
+  destruct (terr_res e2) as [u2|c|] eqn:E2; cbn [negb].
+  2:{ intros _. cbn [fst snd mout_of_part pa_res pa_n pa_groups]. rewrite E2. split; reflexivity. }
+  2:{ cbn [snd pa_res]. congruence. }
+  intros _. unfold g_write. cbn [merror_is_nil negb fst snd mout_of_part pa_res pa_n pa_groups app groups_of map terr_res err_res].
+  split; [reflexivity|]. unfold mout_of_part; cbn [pa_res pa_n pa_groups]. f_equal.
+Qed.
+
+(* ---- retransmitTables ---- *)
+
+Lemma retransmit_of_generated s force pb mb buf : pa_res (snd (retransmit_tables s force)) <> Panic ->
+  let '(w, pmu, pmtu, patv, pmtv, patcc, pmtcc, _, _, _, cnt, n, e) :=
+    Muxer_retransmitTables calc_descriptor_length calc_pmt_section_length g_write to_pat g_wpsi g_wpkt
+      (@nil (list Z)) C_MpegTsPacketSize (ms_period s) mux_pm (ms_pm_updated s) (pmt_of s) (ms_pmt_updated s)
+      (ms_pat_version s) (ms_pmt_version s) (ms_pat_cc s) (ms_pmt_cc s) pb mb buf (ms_retransmit s) force in
+  fst (retransmit_tables s force) = set_retransmit (set_tables s patv pmtv patcc pmtcc pmu pmtu) cnt /\
+  mout_of_part (snd (retransmit_tables s force)) = mk_mout (terr_res e) n (groups_of w).
+Proof.
+  unfold retransmit_tables, Muxer_retransmitTables.
+  cbn [ms_retransmit ms_period set_retransmit].
+  destruct (negb force && (ms_retransmit s + 1 <? ms_period s)).
+  { intros _. cbn [fst snd mout_of_part pa_res pa_n pa_groups groups_of map terr_res err_res].
+    rewrite set_tables_same. split; reflexivity. }
+  set (s1 := set_retransmit s (ms_retransmit s + 1)).
+  intros NP.
+  assert (NP1 : pa_res (snd (write_tables s1)) <> Panic).
+  { destruct (write_tables s1) as [s2 [[u|c|] n g p]]; cbn [snd pa_res] in *; congruence. }
+  pose proof (write_tables_of_generated s1 pb mb buf NP1) as W.
+  subst s1. cbn [pmt_of ms_streams ms_pcr_pid ms_pmt_updated ms_pmt_version ms_pmt_cc ms_pat_version ms_pat_cc ms_pm_updated set_retransmit] in W.
+  fold (pmt_of s) in W.
+  destruct (Muxer_WriteTables _ _ _ _ _ _ _ _ _ _ _ _ _ _ _ _ _ _ _) as [[[[[[[[[[[w pmu] pmtu] patv] pmtv] patcc] pmtcc] b1] b2] b3] n] e].
+  destruct W as [W1 W2]. rewrite terr_nil.
+  destruct (write_tables (set_retransmit s (ms_retransmit s + 1))) as [s2 [r2 n2 g2 p2]].
+  cbn [fst snd mout_of_part pa_res pa_n pa_groups] in *. inversion W2; subst.
+  destruct (terr_res e) as [u|c|] eqn:Ee; cbn [negb fst snd mout_of_part pa_res pa_n pa_groups terr_res err_res]; rewrite ?Ee.
+  - destruct u. split; reflexivity.
+  - split; reflexivity.
+  - split; reflexivity.
+Qed.
+
+(* ---- WriteData up to its packetisation loop ---- *)
+
+(* the part of the model that stands for the rest of the function (from `for payloadBytesWritten < len(d.PES.Data)`) *)
+Definition wd_rest (s1 : mstate) (tables : part) (ctx : esctx) (d : MuxerData) : mstate * part :=
+  let pid := MuxerData_PID d in
+  match MuxerData_PES d with
+  | None => (s1, part_app tables (mk_part Panic 0 [] []))
+  | Some pes =>
+      match PESData_Data pes, PESData_Header pes with
+      | [], _ => (s1, tables)
+      | _ :: _, None => (s1, part_app tables (mk_part Panic 0 [] []))
+      | data, Some h0 =>
+          let h := filled_header h0 (ec_es ctx) in
+          let r := wd_loop (length data + 3) pid h (ec_cc ctx) (MuxerData_AdaptationField d) true data in
+          (set_es s1 (es_put pid (mk_esctx (lo_cc r) (ec_es ctx)) (ms_es s1)), part_app tables (lo_part r))
+      end
+  end.
+
+Lemma write_data_unfold s d :
+  write_data s d =
+  match es_find (MuxerData_PID d) (ms_es s) with
+  | None => (s, mk_part (Err E_pid_not_found) 0 [] [])
+  | Some ctx =>
+      match retransmit_tables s (af_rai (MuxerData_AdaptationField d) && (MuxerData_PID d =? ms_pcr_pid s)) with
+      | (s1, mk_part (Ok _) n g p) => wd_rest s1 (mk_part (Ok tt) n g p) ctx d
+      | r => r
+      end
+  end.
+Proof. reflexivity. Qed.
+
+(* the rest depends on the tables part only through what the caller sees of it (the ghost packet list aside) *)
+Lemma wd_rest_mout s1 t t' ctx d : pa_res t = pa_res t' -> pa_n t = pa_n t' -> pa_groups t = pa_groups t' ->
+  fst (wd_rest s1 t ctx d) = fst (wd_rest s1 t' ctx d) /\
+  mout_of_part (snd (wd_rest s1 t ctx d)) = mout_of_part (snd (wd_rest s1 t' ctx d)).
+Proof.
+  intros H1 H2 H3. unfold wd_rest.
+  destruct (MuxerData_PES d) as [pes|]; [destruct (PESData_Data pes), (PESData_Header pes)|];
+    cbn [fst snd]; unfold mout_of_part, part_app; cbn [pa_res pa_n pa_groups]; rewrite ?H1, ?H2, ?H3; split; reflexivity.
+Qed.
+
+Definition wd_ret (s : mstate)
+    (r : gw * bool * bool * wrappingCounter * wrappingCounter * wrappingCounter * wrappingCounter *
+         list Z * list Z * list Z * Z * Z * merror) : mstate * mout :=
+  let '(w, pmu, pmtu, patv, pmtv, patcc, pmtcc, _, _, _, cnt, n, e) := r in
+  (set_retransmit (set_tables s patv pmtv patcc pmtcc pmu pmtu) cnt, mk_mout (terr_res e) n (groups_of w)).
+
+(* rest_: the model's remainder, started from the fields and locals the translated part hands over *)
+Definition wd_rest_gen (s : mstate) (bytesWritten : Z) (ctx : esContext) (d : MuxerData) (err : merror) (force : bool)
+    (buf : list Z) (escs : list (Z * esctx)) (ps : Z) (pbytes : list Z) (patcc patv : wrappingCounter) (pm : gpm)
+    (pmu : bool) (pmt : PMTData) (mbytes : list Z) (pmtcc : wrappingCounter) (pmtu : bool) (pmtv : wrappingCounter)
+    (cnt period : Z) (w : gw) (n : Z) (ok : bool) (pbw : Z) (pstart waf : bool) : mstate * mout :=
+  let s1 := set_retransmit (set_tables s patv pmtv patcc pmtcc pmu pmtu) cnt in
+  let '(s', p) := wd_rest s1 (mk_part (Ok tt) bytesWritten (groups_of w) []) (ctx_mod ctx) d in
+  (s', mout_of_part p).
+
+Lemma set_retransmit_same s : set_retransmit s (ms_retransmit s) = s.
+Proof. destruct s; reflexivity. Qed.
+
+Lemma write_data_of_generated s d pb mb buf :
+  pa_res (snd (retransmit_tables s (af_rai (MuxerData_AdaptationField d) && (MuxerData_PID d =? ms_pcr_pid s)))) <> Panic ->
+  (fst (write_data s d), mout_of_part (snd (write_data s d))) =
+  Muxer_WriteData_until_loop calc_descriptor_length calc_pmt_section_length g_write ge_get to_pat g_wpsi g_wpkt
+    (wd_ret s) (wd_rest_gen s)
+    (@nil (list Z)) C_MpegTsPacketSize (ms_period s) mux_pm (ms_pm_updated s) (pmt_of s) (ms_pmt_updated s)
+    (ms_pat_version s) (ms_pmt_version s) (ms_pat_cc s) (ms_pmt_cc s) pb mb buf (ms_es s) (ms_retransmit s) d.
+Proof.
+  rewrite write_data_unfold. unfold Muxer_WriteData_until_loop, ge_get.
+  destruct (es_find (MuxerData_PID d) (ms_es s)) as [ctx|]; cbn [option_map odflt negb].
+  2:{ intros _. unfold wd_ret. cbn [fst snd mout_of_part pa_res pa_n pa_groups groups_of map terr_res err_res].
+      rewrite set_tables_same, set_retransmit_same. reflexivity. }
+  match goal with |- context [Muxer_retransmitTables _ _ _ _ _ _ _ _ _ _ _ _ _ _ _ _ _ _ _ _ _ ?f] =>
+    replace f with (af_rai (MuxerData_AdaptationField d) && (MuxerData_PID d =? ms_pcr_pid s))
+      by (unfold af_rai, pmt_of; cbn [pmt_data_of PMTData_PCRPID]; destruct (MuxerData_AdaptationField d); reflexivity)
+  end.
+  set (force := af_rai (MuxerData_AdaptationField d) && (MuxerData_PID d =? ms_pcr_pid s)).
+  intros NP. pose proof (retransmit_of_generated s force pb mb buf NP) as R.
+  destruct (Muxer_retransmitTables _ _ _ _ _ _ _ _ _ _ _ _ _ _ _ _ _ _ _ _ _ _)
+    as [[[[[[[[[[[[w pmu] pmtu] patv] pmtv] patcc] pmtcc] b1] b2] b3] cnt] n] e].
+  destruct R as [R1 R2]. rewrite terr_nil.
+  destruct (retransmit_tables s force) as [s1 [r1 n1 g1 p1]].
+  cbn [fst snd] in R1, R2. unfold mout_of_part in R2. cbn [pa_res pa_n pa_groups] in R2. inversion R2; subst.
+  destruct (terr_res e) as [u|c|] eqn:Ee; cbn [negb].
+  - unfold wd_rest_gen. rewrite ctx_mod_gen.
+    destruct (wd_rest_mout (set_retransmit (set_tables s patv pmtv patcc pmtcc pmu pmtu) cnt)
+                (mk_part (Ok tt) n (groups_of w) p1) (mk_part (Ok tt) (0 + n) (groups_of w) []) ctx d
+                eq_refl eq_refl eq_refl) as [M1 M2].
+    destruct (wd_rest _ {| pa_res := Ok tt; pa_n := n; pa_groups := groups_of w; pa_pkts := p1 |} ctx d) as [a pa].
+    destruct (wd_rest _ {| pa_res := Ok tt; pa_n := 0 + n; pa_groups := groups_of w; pa_pkts := [] |} ctx d) as [b pb2].
+    cbn [fst snd] in M1, M2. cbn [fst snd]. rewrite M1, M2. reflexivity.
+  - unfold wd_ret. rewrite Ee. reflexivity.
+  - unfold wd_ret. rewrite Ee. reflexivity.
+Qed.
